@@ -39,6 +39,16 @@ pub fn c18_build(raw: &Raw, _tier: Tier, _sched: bool) -> Scenario {
         o.thunk_ops = false;
     }
     let mut s = gen_pipeline(raw, &o);
+    // before_effect removal masks: effects issued counts what the reducers returned, not what is left
+    let mws: Vec<CompId> = s.stores[0].middlewares.clone();
+    if !mws.is_empty() {
+        for (i, a) in s.actions.iter_mut().enumerate() {
+            if !a.effects.is_empty() && (knob(raw, 12) as usize + i) % 3 == 0 {
+                let e = a.effects[i % a.effects.len()].1.id;
+                a.removes.push((mws[i % mws.len()], vec![e]));
+            }
+        }
+    }
     // one sampler thread reading the metrics in a loop
     let n = 4 + (knob(raw, 14) % 8) as usize;
     let mut sampler = vec![];
@@ -287,7 +297,9 @@ pub fn c19_build(raw: &Raw, _tier: Tier, _sched: bool) -> Scenario {
 
 pub fn c19_check(scn: &Scenario, h: &History) -> Outcome {
     let mut out = Outcome::default();
-    let Some((d, p)) = prepare("C19", false, scn, h, &mut out) else { return out };
+    // a store that stops making progress because another one was stopped / dropped is a violation
+    // (the scenarios contain no iterators, so the known C13 findings cannot be the cause)
+    let Some((d, p)) = prepare("C19", true, scn, h, &mut out) else { return out };
     // every per-store oracle on each store's sub-log: nothing of A may show in B
     for m in findings_of(&p, &[Kind::Isolation, Kind::Fold, Kind::Notify, Kind::Phase, Kind::Verdict]) {
         out.viol(m);
@@ -415,7 +427,7 @@ pub static C19: Profile = Profile {
     build: c19_build,
     check: c19_check,
     budget: Budget { r_cases: (3000, 20000), s_cases: (3000, 8000), s_scheds: (16, 64) },
-    liveness: false,
+    liveness: true,
     enumerate: None,
     extra: None,
     assumptions: &["only store 0 is stopped early; store 1 is stopped by the epilogue"],
